@@ -4,7 +4,11 @@
 //! Block production, leader-side of the consensus protocol.
 
 use std::sync::Arc;
+#[cfg(not(feature = "verif-hooks"))]
 use std::time::{Duration, Instant};
+// verification harnesses run nodes under tokio's paused clock: measure elapsed time on that clock
+#[cfg(feature = "verif-hooks")]
+use {std::time::Duration, tokio::time::Instant};
 
 use anyhow::Result;
 use either::Either;
